@@ -34,3 +34,7 @@ package contexttags
 //@   props C05 C03 C12
 //@   requires b != nil
 //@   ensures len(result) == len(tagsOf(b))
+
+//@ func redactableTagsIterate
+//@   props C03 C05
+//@   requires b != nil && fn != nil
